@@ -20,9 +20,23 @@ attributes with quick-xml's duplicate check switched on (an attribute whose key 
 an `AttrError` ⇒ `ParserError::Parse`), stops at the first key that matches and unescapes its
 value (`unescape`: the five predefined entities and numeric character references).
 Names are byte lists; the harness only sends valid UTF-8 (the `Decoder` check is outside the model).
-There is no panicking operation in this code (`split(..).next_back()` / `.next()` never return
-`None`), so the outcome has no `panic` constructor; `vec![true; cb]` is `List.replicate` and its
-size is not bounded by the input size (finding C14-jacoco-branch-vector-alloc / DESIGN §7 item 9).
+
+Crash sites. The two `expect`s of the `class` arm (`split('/').next_back()`, `split('$').next()`)
+cannot fail: `str::split` always yields at least one piece. The ONE site that can crash is the
+branch arm of `parse_jacoco_report_sourcefile`:
+
+    let mut v = vec![true; cb as usize];
+    v.extend(vec![false; mb as usize]);
+
+`cb`/`mb` are any `u64` the attribute holds. A request above `isize::MAX` bytes (`cb`, `mb` or, in
+`extend`'s `reserve`, `cb + mb`) panics with "capacity overflow"; a smaller request the allocator
+cannot serve aborts the process (`handle_alloc_error`). Both are the outcome `alloc` of the model:
+it is produced when `cb + mb` exceeds the parameter `cap` (the largest vector the machine can
+build, at most `allocMax = isize::MAX`). With `cap = allocMax` the outcome is exactly the
+"capacity overflow" panic; `parse` is `parseCap allocMax`. Below `cap` the vector is
+`List.replicate` and its size is not bounded by the input size (finding
+C14-jacoco-branch-vector-alloc / DESIGN §7 item 9). What the parameter abstracts away: memory
+used up by MANY lines each below `cap` (measured by the C14 runs, not modelled).
 -/
 import GrcovModel.Merge
 namespace Grcov.Jacoco
@@ -47,8 +61,14 @@ deriving DecidableEq, Repr
 inductive Outcome (α : Type) where
   | ok (a : α)
   | err (k : ErrKind)
+  /-- `vec![true; cb]` / `extend(vec![false; mb])` asked for more than the machine gives:
+  "capacity overflow" panic (above `isize::MAX`) or allocation abort -/
+  | alloc
   | diverge
 deriving DecidableEq, Repr
+
+/-- `isize::MAX` on the 64-bit targets: no `Vec<bool>` can be longer -/
+def allocMax : Nat := 9223372036854775807
 
 /-! ### names used by the parser (ASCII bytes) -/
 
@@ -229,20 +249,22 @@ structure SrcAcc where
   branches : List (Nat × List Bool) := []
 deriving DecidableEq, Repr
 
-/-- body of the `line` arm after the attribute loop: the four `try_att`, then branch or statement -/
-def commitLine (acc : SrcAcc) (a : LineAcc) : Except ErrKind SrcAcc :=
+/-- body of the `line` arm after the attribute loop: the four `try_att`, then branch or statement.
+`cap`: the longest vector `vec![true; cb]` + `extend(vec![false; mb])` can build (see the header) -/
+def commitLine (cap : Nat) (acc : SrcAcc) (a : LineAcc) : Outcome SrcAcc :=
   match a.ci, a.cb, a.mb, a.nr with
   | some ci, some cb, some mb, some nr =>
     if mb > 0 ∨ cb > 0 then
-      .ok { acc with branches := set acc.branches nr (List.replicate cb true ++ List.replicate mb false) }
+      if cb + mb > cap then .alloc
+      else .ok { acc with branches := set acc.branches nr (List.replicate cb true ++ List.replicate mb false) }
     else
       .ok { acc with lines := set acc.lines nr (if ci > 0 then 1 else 0) }
-  | _, _, _, _ => .error .invalidRecord
+  | _, _, _, _ => .err .invalidRecord
 
 /-! ### the loops -/
 
 /-- `parse_jacoco_report_sourcefile` (`Eof` ⇒ `Parse` error) -/
-def sourcefileLoop : Nat → List XmlEvent → SrcAcc → Outcome (SrcAcc × List XmlEvent)
+def sourcefileLoop (cap : Nat) : Nat → List XmlEvent → SrcAcc → Outcome (SrcAcc × List XmlEvent)
   | 0, _, _ => .diverge
   | _ + 1, [], _ => .err .parse              -- `Ok(Event::Eof) => return Err(Parse("unexpected end of file"))`
   | fuel + 1, e :: r, acc =>
@@ -251,14 +273,16 @@ def sourcefileLoop : Nat → List XmlEvent → SrcAcc → Outcome (SrcAcc × Lis
       if localName n = sLine then
         match lineAttrs [] a {} with
         | .ok la =>
-          (match commitLine acc la with
-           | .ok acc' => sourcefileLoop fuel r acc'
-           | .error k => .err k)
+          (match commitLine cap acc la with
+           | .ok acc' => sourcefileLoop cap fuel r acc'
+           | .err k => .err k
+           | .alloc => .alloc
+           | .diverge => .diverge)
         | .error k => .err k
-      else sourcefileLoop fuel r acc
-    | .end_ n => if localName n = sSourcefile then .ok (acc, r) else sourcefileLoop fuel r acc
+      else sourcefileLoop cap fuel r acc
+    | .end_ n => if localName n = sSourcefile then .ok (acc, r) else sourcefileLoop cap fuel r acc
     | .bad => .err .parse
-    | _ => sourcefileLoop fuel r acc
+    | _ => sourcefileLoop cap fuel r acc
 
 /-- `parse_jacoco_report_method` (`Eof` ⇒ `Parse` error); the state is `executed` -/
 def methodLoop : Nat → List XmlEvent → Bool → Outcome (Bool × List XmlEvent)
@@ -301,6 +325,7 @@ def classLoop (cls : Name) : Nat → List XmlEvent → List (Name × Fn) → Out
                 (match methodLoop fuel r false with
                  | .ok (ex, r') => classLoop cls fuel r' (set fns (cls ++ cHash :: name) ⟨startLine, ex⟩)
                  | .err k => .err k
+                 | .alloc => .alloc
                  | .diverge => .diverge)
               | none => .err .parse)
            | .error k => .err k)
@@ -345,7 +370,7 @@ def sourceFileOf (a : List Attr) (top : Name) : Name :=
 
 /-- `parse_jacoco_report_package` (`Eof` ⇒ `Parse` error); the state is `results_map` in insertion order
 (the real order is the `FxHashMap` iteration order: results are compared as sorted lists) -/
-def packageLoop (package : Name) : Nat → List XmlEvent → List (Name × Cov) →
+def packageLoop (cap : Nat) (package : Name) : Nat → List XmlEvent → List (Name × Cov) →
     Outcome (List (Name × Cov) × List XmlEvent)
   | 0, _, _ => .diverge
   | _ + 1, [], _ => .err .parse              -- `Ok(Event::Eof) => return Err(Parse("unexpected end of file"))`
@@ -359,27 +384,29 @@ def packageLoop (package : Name) : Nat → List XmlEvent → List (Name × Cov) 
           let top := beforeFirst cDollar cls
           let file := sourceFileOf a top
           (match classLoop cls fuel r [] with
-           | .ok (fns, r') => packageLoop package fuel r' (addClass m file fns)
+           | .ok (fns, r') => packageLoop cap package fuel r' (addClass m file fns)
            | .err k => .err k
+           | .alloc => .alloc
            | .diverge => .diverge)
         | .error k => .err k
       else if localName n = sSourcefile then
         match getAttr sName a with
         | .ok file =>
-          (match sourcefileLoop fuel r {} with
-           | .ok (s, r') => packageLoop package fuel r' (addSource m file s)
+          (match sourcefileLoop cap fuel r {} with
+           | .ok (s, r') => packageLoop cap package fuel r' (addSource m file s)
            | .err k => .err k
+           | .alloc => .alloc
            | .diverge => .diverge)
         | .error k => .err k
-      else packageLoop package fuel r m
+      else packageLoop cap package fuel r m
     | .end_ n =>
       if localName n = sPackage then .ok (m.map fun (f, c) => (outPath package f, c), r)
-      else packageLoop package fuel r m
+      else packageLoop cap package fuel r m
     | .bad => .err .parse
-    | _ => packageLoop package fuel r m
+    | _ => packageLoop cap package fuel r m
 
 /-- the loop of `parse_jacoco_xml_report`: `Eof` ends it normally -/
-def reportLoop : Nat → List XmlEvent → List (Name × Cov) → Outcome (List (Name × Cov))
+def reportLoop (cap : Nat) : Nat → List XmlEvent → List (Name × Cov) → Outcome (List (Name × Cov))
   | 0, _, _ => .diverge
   | _ + 1, [], res => .ok res
   | fuel + 1, e :: r, res =>
@@ -388,18 +415,25 @@ def reportLoop : Nat → List XmlEvent → List (Name × Cov) → Outcome (List 
       if localName n = sPackage then
         match getAttr sName a with
         | .ok package =>
-          (match packageLoop package fuel r [] with
-           | .ok (pr, r') => reportLoop fuel r' (res ++ pr)
+          (match packageLoop cap package fuel r [] with
+           | .ok (pr, r') => reportLoop cap fuel r' (res ++ pr)
            | .err k => .err k
+           | .alloc => .alloc
            | .diverge => .diverge)
         | .error k => .err k
-      else reportLoop fuel r res
+      else reportLoop cap fuel r res
     | .bad => .err .parse
-    | _ => reportLoop fuel r res
+    | _ => reportLoop cap fuel r res
 
-/-- `parse_jacoco_xml_report` on the event sequence `evs` -/
+/-- `parse_jacoco_xml_report` on the event sequence `evs`, on a machine whose longest branch
+vector is `cap` -/
+def parseCap (cap : Nat) (evs : List XmlEvent) (fuel : Nat) : Outcome (List (Name × Cov)) :=
+  reportLoop cap fuel (expand evs) []
+
+/-- `parse_jacoco_xml_report` with only the language's own limit (`isize::MAX`): `alloc` is then
+exactly the "capacity overflow" panic -/
 def parse (evs : List XmlEvent) (fuel : Nat) : Outcome (List (Name × Cov)) :=
-  reportLoop fuel (expand evs) []
+  parseCap allocMax evs fuel
 
 /-- fuel that is enough whenever the real parser returns (`C10_termination`, `C10_fidelity`) -/
 def enoughFuel (evs : List XmlEvent) : Nat := 2 * evs.length + 1
